@@ -49,7 +49,7 @@ def worker_cmd(cfg, binp, args):
     return [binp] + args, {}
 
 
-def run_workers(prop, cfg, binp, tier, seed, known_ids, outdir):
+def run_workers(prop, cfg, binp, tier, seed, known_ids, outdir, maprot=0):
     os.makedirs(outdir, exist_ok=True)
     nsh = cfg.get("shards", NPROC)
     budget = cfg.get("budget_" + tier, 0)
@@ -59,7 +59,7 @@ def run_workers(prop, cfg, binp, tier, seed, known_ids, outdir):
         if os.path.exists(out):
             os.remove(out)
         args = ["-prop", prop, "-tier", tier, "-shard", str(k), "-nshards", str(nsh), "-out", out,
-                "-known", ",".join(known_ids), "-seed", str(seed)]
+                "-known", ",".join(known_ids), "-seed", str(seed), "-maprot", str(maprot)]
         if budget:
             args += ["-budget", f"{budget}s"]
         cmd, envx = worker_cmd(cfg, binp, args)
@@ -145,7 +145,7 @@ def shard_rerun(prop, cfg, binp, v, known_ids, out):
     if os.path.exists(out):
         os.remove(out)
     args = ["-prop", prop, "-tier", v.get("tier") or "quick", "-shard", str(v.get("shard", 0)), "-nshards", str(v["nshards"]),
-            "-out", out, "-known", ",".join(known_ids), "-seed", str(v.get("seed", 0))]
+            "-out", out, "-known", ",".join(known_ids), "-seed", str(v.get("seed", 0)), "-maprot", str(v.get("map_rot", 0))]
     cmd, envx = worker_cmd(cfg, binp, args)
     env = dict(os.environ)
     env.update(envx)
@@ -267,8 +267,21 @@ def main():
         sys.exit(2)
 
     outdir = os.path.join(WORK, "out", prop, tier)
-    results, errors, crashes = run_workers(prop, cfg, binp, tier, seed, known_ids, outdir)
+    # Hash-map iteration order is not left to the runtime: outside the explorations that enumerate it, every map
+    # iteration takes one fixed order, chosen by the seed (0 = canonical). The thorough tier repeats the checks
+    # that do not enumerate map orders themselves under a second fixed order.
+    maprot = seed % 4
+    results, errors, crashes = run_workers(prop, cfg, binp, tier, seed, known_ids, outdir, maprot)
+    maprots = [maprot]
+    if tier == "thorough" and cfg.get("second_map_order"):
+        r2, e2, c2 = run_workers(prop, cfg, binp, tier, seed, known_ids, os.path.join(outdir, "rot"), maprot + 1)
+        states_once = merge(results)["states"]
+        results, errors, crashes = results + r2, errors + e2, crashes + c2
+        maprots.append(maprot + 1)
     m = merge(results)
+    if len(maprots) > 1:
+        m["states"] = states_once  # the second pass visits the same states under another map order
+    m["notes"]["fixed_map_iteration_orders"] = ",".join(str(x) for x in maprots)
     # a worker killed by a fatal runtime error while executing a journaled case: believed only if the
     # case kills a fresh process again, twice
     for v in crashes:
